@@ -502,7 +502,8 @@ def eval_sim(desc, ctx):
             ints.append([1, shape[0], shape[1], shape[2]] + fl(x) + fl(y) + [k, ok] + [v for t in tr for v in t])
         else:
             ints.append([3, shape[1], shape[2]] + fl(x) + fl(y) + [ok] + ([tr[0][1], tr[0][2]] if tr else []))
-    for lim, bx, by, ax, ay in clips[:6]:
+    moved = [c for c in clips if c[1] != c[3] or c[2] != c[4]]      # calls that actually clipped something first
+    for lim, bx, by, ax, ay in (moved + [c for c in clips if c not in moved])[:2]:
         c5 = [5, 1, g[0], g[1], g[2], g[3]] + fl(lim[0]) + fl(lim[1]) + fl(lim[2]) + fl(lim[3]) + [len(bx)]
         for n in range(len(bx)):
             c5 += fl(bx[n]) + fl(by[n]) + fl(ax[n]) + fl(ay[n])
